@@ -141,7 +141,7 @@ CONF = {
             {"name": "race", "pkg": "internal/layer2", "test": "TestVerif_C13race", "shards": 1, "race": True, "rewrites": {"go": ["internal/layer2/announcer.go"]}},
             {"name": "ndp-groups", "pkg": "internal/layer2", "test": "TestVerif_C13ndp", "shards": 1, "rewrites": {"go": ["internal/layer2/announcer.go"]}},
             {"name": "spam-loop", "pkg": "internal/layer2", "test": "TestVerif_C13spam", "shards": 1, "gomaxprocs": 8, "rewrites": {"go": ["internal/layer2/announcer.go"]}}],
-  "rewrites": {"sync": ["internal/layer2/announcer.go"], "go": ["internal/layer2/announcer.go"], "map": ["internal/layer2/announcer.go"]},
+  "rewrites": {"sync": ["internal/layer2/announcer.go"], "go": ["internal/layer2/announcer.go"], "map": ["internal/layer2/announcer.go"], "chan": ["internal/layer2/announcer.go"]},
   "assumptions": ["the NDP packet path is not covered; the NDP decision is the same shouldAnnounce and is covered for the IPv6 address; solicited-node multicast membership is covered by the ndp-groups part where an ICMPv6 listener can be opened on a local interface (the part reports when it had to be skipped)",
                   "background interface scan and spam loop suppressed; the spam loop's effect (gratuitous of a queued advertisement) is delivered by the harness",
                   "race pass: 200 free-running iterations of the concurrent bodies compiled with -race (the only non-enumerative component)"],
